@@ -592,12 +592,22 @@ def dl_table(cpp, hpp, cls, regions):
 
     add(r'if\s*\(\s*so_filename\.empty\(\)\s*\)\s*throw\s+std::invalid_argument', lambda m: '.emptyFilename')
     add(r'handle\s*=\s*util::load_lib\(\s*so_filename\s*\)', lambda m: '.loadLib')
-    add(r'try\s*\{[^{}]*util::load_func\(\s*handle\.get\(\)\s*,\s*function_name\s*\+\s*"_version"\s*\)[^{}]*'
-        r'check_abi_version\(\s*version_func\(\)\s*\)\s*;\s*\}\s*catch\s*\(\s*const\s+([\w:]+)\s*&\s*\)\s*\{([^{}]*)\}',
-        lambda m: f'.versionFn {lstr(m.group(1).split("::")[-1])}')
-    mcatch = re.search(r'catch\s*\(\s*const\s+[\w:]+\s*&\s*\)\s*\{([^{}]*)\}', body)
-    if mcatch and re.search(r'\bthrow\b', mcatch.group(1)):
+    # the version function: loaded inside a try block; the ABI check either inside it or right after it
+    mv = list(re.finditer(r'try\s*\{([^{}]*util::load_func\(\s*handle\.get\(\)\s*,\s*function_name\s*\+\s*"_version"\s*\)[^{}]*)\}'
+                          r'\s*catch\s*\(\s*const\s+([\w:]+)\s*&\s*\)\s*\{([^{}]*)\}', body, re.S))
+    if len(mv) != 1:
+        raise TErr(f'{cls} constructor: version-function try block not found')
+    mv = mv[0]
+    if re.search(r'\bthrow\b', mv.group(3)):
         raise TErr(f'{cls} constructor: the version-function catch block rethrows (not modelled)')
+    inside = bool(re.search(r'check_abi_version\(\s*version_func\(\)\s*\)', mv.group(1)))
+    after = re.match(r'\s*if\s*\(\s*version_func\s*\)\s*check_abi_version\(\s*version_func\(\)\s*\)\s*;', body[mv.end():])
+    if inside == bool(after):
+        raise TErr(f'{cls} constructor: check_abi_version(version_func()) must occur exactly once, inside the try '
+                   'block or directly after it')
+    if after and not re.search(r'\(\s*\*\s*version_func\s*\)\s*\(\s*\)\s*=\s*nullptr\s*;', body[:mv.start()]):
+        raise TErr(f'{cls} constructor: version_func is not initialised to nullptr before the try block')
+    steps.append((mv.start(), f'.versionFn {lstr(mv.group(2).split("::")[-1])} {"true" if inside else "false"}'))
     add(r'util::load_func\(\s*handle\.get\(\)\s*,\s*function_name\s*\)', lambda m: '.loadRegister')
     add(r'auto\s+r\s*=\s*register_func\(\s*user_param\s*\)', lambda m: '.callRegister')
     add(r'check_abi_version\(\s*r\.abi_version\s*\)', lambda m: '.abiOfResult')
@@ -698,10 +708,11 @@ def main(out_path):
                ']\n  supports := []\n')
     # the vtable constructor's run-time checks
     vsrc = struct_body(ocp, 'ControlProblemVTable')
-    chk = re.findall(r'if\s*\(\s*(\w+)\s*>\s*0\s*&&\s*(' + ID + r')\s*==\s*nullptr\s*\)\s*throw\s+std::runtime_error', vsrc)
-    out.append('/-- `ControlProblemVTable` constructor: `if (dim > 0 && entry == nullptr) throw` -/\n'
-               'def ocpCtorChecks : List (String × String) := ' +
-               llist(chk, lambda p: f'({lstr(p[0])}, {lstr(p[1])})') + '\n')
+    chk = re.findall(r'if\s*\(\s*(\w+)\s*>\s*0\s*&&\s*(' + ID + r')\s*==\s*&?\s*(' + ID +
+                     r')\s*\)\s*throw\s+std::runtime_error', vsrc)
+    out.append('/-- `ControlProblemVTable` constructor: `if (dim > 0 && entry == <absent value>) throw` -/\n'
+               'def ocpCtorChecks : List (String × String × String) := ' +
+               llist(chk, lambda p: f'({lstr(p[0])}, {lstr(p[1])}, {lstr(p[2])})') + '\n')
     regions['ControlProblemVTable.ctor'] = chk
 
     cpp = read(DL_CPP)
